@@ -48,3 +48,39 @@ def build(m):
                        ('forall(lambda i: self._headings[i] == old(self._headings)[i], 0, len(old(self._headings)))', 'C19'),
                    ],
                    modifies=['self._headings'], prop=['C19', 'C18']))
+
+
+def build2(m):
+    """TocRenderer.toc: entries are nested by a stack of open levels (C19)."""
+    TOC = TRef('TocRenderer')
+    ns = m.namespaces[MOD]
+    ns['block_token'] = ('module', 'mistletoe.block_token')
+    m.namespaces.setdefault('mistletoe.block_token', {})
+    if 'tokenize' not in m.namespaces['mistletoe.block_token']:
+        m.namespaces['mistletoe.block_token']['tokenize'] = ('func', 'mistletoe.block_token:tokenize#toc')
+        m.add(Contract('mistletoe.block_token:tokenize#toc', [('lines', TList(STR))], returns=TList(TRef('Token')),
+                       trusted=True, note='re-tokenization of the TOC lines (the block parser itself)'))
+        m.classes.setdefault('Token', {'line_number': INT})
+    m.methods[('TocRenderer', 'toc')] = MOD + ':TocRenderer.toc'
+    m.add(Contract(MOD + ':TocRenderer.toc', [('self', TOC)], returns=None, is_property=True,
+                   allow_exc=['CustomTokenError'],
+                   modifies=['G:SCRATCH', 'G:FOOTNOTES', 'G:INLINE_PHASE', 'N:Token.line_number', 'N:Token.children',
+                             'F:Token.line_number', 'N:FileWrapper._index', 'N:FileWrapper.lines', 'N:FileWrapper.start_line',
+                             'N:FileWrapper._anchor', 'N:ParseBuffer.items', 'N:ParseBuffer.loose'],
+                   ghost_after={
+                       # the printed nesting depth of an entry is the number of open (smaller-level) ancestors,
+                       # the closest of which is the top of the stack: smaller than the entry's own level
+                       'lines.append(build_list_item(len(open_levels), content))': [
+                           ('__assert__', ('implies(len(open_levels) > 0, open_levels[len(open_levels) - 1] < level)', 'C19')),
+                           ('__assert__', ("len(lines[len(lines) - 1]) == 4 * len(open_levels) + 2 + len(content) + 1", 'C19')),
+                           ('__assert__', ("lines[len(lines) - 1].endswith('- ' + content + '\\n')", 'C19'))],
+                   },
+                   body_types={'lines': TList(STR), 'open_levels': TList(INT)},
+                   loops={0: Loop(invariant=[
+                       # open levels are strictly increasing: each open entry is nested in the previous one
+                       'forall(lambda i: open_levels[i] < open_levels[i + 1], 0, len(open_levels) - 1)',
+                       'len(lines) == _k0']),
+                       1: Loop(invariant=['forall(lambda i: open_levels[i] < open_levels[i + 1], 0, len(open_levels) - 1)',
+                                          'len(lines) == _k0'],
+                               decreases='len(open_levels)')},
+                   prop=['C19']))
